@@ -43,7 +43,7 @@ def main():
     only = None; jobs = 4; tier = "quick"
     i = 0
     while i < len(a):
-        if a[i] in ("--all", "--primary"): mode = a[i]
+        if a[i] in ("--all", "--primary", "--related"): mode = a[i]
         elif a[i] == "--only": only = a[i + 1].split(","); i += 1
         elif a[i] == "--jobs": jobs = int(a[i + 1]); i += 1
         elif a[i] == "--tier": tier = a[i + 1]; i += 1
@@ -52,9 +52,21 @@ def main():
     if only: names = [n for n in names if n in only]
     path = os.path.join(SEEDED, "KILL_MATRIX.json")
     matrix = json.load(open(path)) if os.path.exists(path) else {}
+    GROUPS = [{"C01", "C09", "C15", "C13"}, {"C02", "C03", "C05", "C06"}, {"C04", "C07", "C19", "C17"}, {"C08", "C16", "C19"},
+              {"C10", "C14", "C18"}, {"C11", "C12", "C06"}, {"C12", "C07", "C13"}]
+
     def ids_for(n):
         meta = json.load(open(os.path.join(SEEDED, n, "meta.json")))
-        return IDS if mode == "--all" else [meta["breaks_property"]]
+        prim = meta["breaks_property"]
+        if mode == "--all":
+            return IDS
+        if mode == "--related":
+            rel = {prim}
+            for g in GROUPS:
+                if prim in g:
+                    rel |= g
+            return sorted(rel)
+        return [prim]
     with ThreadPoolExecutor(jobs) as ex:
         for name, res in ex.map(lambda n: run_mutant(n, ids_for(n), tier), names):
             matrix.setdefault(name, {}).update(res)
